@@ -417,7 +417,7 @@ def _conversion(ctx: Ctx, conv):
         elif v > conv.max_time:
             v = conv.max_time
         dl = v - conv.epoch
-        if not ctx.quick or len(tn_cases) < 40 or r.random() < 0.4:
+        if len(tn_cases) < 40 or r.random() < (0.4 if ctx.quick else 0.35):
             tn_cases.append(f"({cfl2(value._time.jd1, value._time.jd2)}, {cfl2(dl._time.jd1, dl._time.jd2)}, {cz(ns)})")
         return ns
 
